@@ -230,7 +230,7 @@ fn main() {
         "events": r.events_json, "final": r.final_json, "nt": !r.fired.is_empty()}));
     }
   }
-  let files = write_cases(&args.out, "From SL Require Import Core.Model C02.Model C03.Model.", "case03", "check_case", &cases, 150);
+  let files = write_cases(&args.out, "From SL Require Import Core.Model C02.Model C03.Model C03.History.", "case03", "check_case_h", &cases, 150);
   write_json(&args.out, "cases.json", &serde_json::json!({"files": files, "cases": meta,
     "distribution": {"histories": n_hist, "single_fault_runs": n_single, "double_fault_runs": n_double,
       "runs_where_a_faulted_call_returned_err": n_fired_err, "runs_where_all_calls_returned_ok_despite_fault": n_fired_ok,
